@@ -348,7 +348,7 @@ func c12Gen(c *core.Ctx, r *core.Rng, builtin map[string]miniSchema, policy stri
 				d["stub-impl"] = true
 			}
 		}
-		place := core.Pick(r, []string{"root", "package", "package", "interface", "configs", "split", "override"})
+		place := core.Pick(r, []string{"root", "package", "package", "interface", "configs", "split", "override", "every-interface"})
 		if allGood && (place == "root" || place == "override") {
 			place = "package"
 		}
@@ -419,6 +419,16 @@ func c12Gen(c *core.Ctx, r *core.Rng, builtin map[string]miniSchema, policy stri
 				putPkg(base)
 			}
 			putConfigs(d)
+		case "every-interface":
+			// every mock of the file carries the data itself, the file level carries none: the
+			// file-level map (empty) must still satisfy the schema
+			putIface(d)
+			if i1 != "" {
+				for k := 0; k < 2; k++ {
+					cp.ConfigsTD[i1][k] = mergeTD(cp.ConfigsTD[i1][k], d)
+					cfgs[k].(*world.Y).Set("template-data", tdY(cp.ConfigsTD[i1][k]))
+				}
+			}
 		case "override":
 			// the whole map above; below, exactly one inherited key is overridden (no key is
 			// added) — with a wrongly typed value, or with another valid one
